@@ -54,13 +54,16 @@ theorem field_verdicts (cfg : Cfg) (st : Strm) (f : Hpack.Field) :
   all_goals simp [StreamScopedVerdict]
 
 /-- … and so does the loop over a whole fragment: besides the verdicts above only an undecodable block
-(COMPRESSION_ERROR) ends it. -/
+(COMPRESSION_ERROR) ends it, or a field that is not complete yet and already longer than any field within
+MaxHeaderListSize can be (the same connection error as for the list, F68). -/
 theorem field_loop_verdicts (fuel : Nat) (s : Srv) (st : Strm) (bs eh : Bool) (fp : Nat) (b : Bytes) :
     (fieldLoop fuel s st bs eh fp b).2.2 = none ∨
     (fieldLoop fuel s st bs eh fp b).2.2 = some (.reset Gen.c_ProtocolError) ∨
     (fieldLoop fuel s st bs eh fp b).2.2 = some (.reset Gen.c_EnhanceYourCalm) ∨
     (fieldLoop fuel s st bs eh fp b).2.2 = some (.goAway Gen.c_CompressionError "compression") ∨
-    (fieldLoop fuel s st bs eh fp b).2.2 = some (.goAway Gen.c_EnhanceYourCalm "header list exceeds the maximum size") := by
+    (fieldLoop fuel s st bs eh fp b).2.2 = some (.goAway Gen.c_EnhanceYourCalm "header list exceeds the maximum size") ∨
+    (fieldLoop fuel s st bs eh fp b).2.2 =
+      some (.goAway Gen.c_EnhanceYourCalm "header field exceeds the maximum header list size") := by
   induction fuel generalizing s st fp b with
   | zero => simp [fieldLoop]
   | succ n ih =>
@@ -69,7 +72,8 @@ theorem field_loop_verdicts (fuel : Nat) (s : Srv) (st : Strm) (bs eh : Bool) (f
     | cons c cs =>
       simp only [fieldLoop]
       cases Hpack.Dec.next s.dec bs fp (c :: cs) with
-      | needMore => simp only []; split <;> simp
+      | needMore => simp only []; repeat' split
+                    all_goals simp
       | err => simp
       | ok dec fo rest =>
         cases fo with
